@@ -22,8 +22,9 @@ Open Scope list_scope.
    still have the kind it started with (the skip decision looks at the original kind); the namespace
    transformer needs a map without empty resources; hashing needs equal-length hashes and no plain resource
    that already carries a hashed name; an unchecked rename (JSON patch / replacement writing metadata.name)
-   is outside the domain. Append, AppendAll (cross-layer merge), Replace, Remove, AbsorbAll, DropEmpties,
-   Clear, legacy sort, ApplySmPatch, IgnoreLocal and the annotation removal need nothing. *)
+   is outside the domain; AbsorbAll and ApplySmPatch are stated for absorbed / patched resources that have a name
+   (the model does not distinguish a missing metadata.name from `name: ""`, which these two write). Append, AppendAll (cross-layer merge), Replace, Remove, AbsorbAll, DropEmpties,
+   Clear, legacy sort, IgnoreLocal and the annotation removal need nothing. *)
 Theorem C07_ids_unique :
   Inv [] /\ forall o m m', Inv m -> safe o m -> step o m = Ok m' -> Inv m'.
 Proof. exact (conj Inv_nil step_inv). Qed.
